@@ -83,12 +83,14 @@ def enumerate_sites(P, reach):
     return sites
 
 
-def e1_events(P, fn, cache={}):
+def e1_events(P, fn, cache={}, depth=1):
     """explore one function (callees opaque) and return {bb: set of verdicts} for index / unwrap / assert sites:
     'safe' when reached and the failing side was infeasible, 'may' when the failing side was feasible"""
+    if depth != 1:
+        cache = _deep_cache
     if fn in cache:
         return cache[fn]
-    M = absint.Machine(P, max_depth=1, loop_limit=1, max_paths=20000)
+    M = absint.Machine(P, max_depth=depth, loop_limit=1, max_paths=20000)
     M.havoc_loops = True
     res = {"reached": set(), "may": set(), "modelled": set(), "opaque": set(), "capped": False, "error": None}
     try:
@@ -120,8 +122,22 @@ def e1_events(P, fn, cache={}):
     return res
 
 
+_deep_cache = {}
+
+
 def discharge_by_guard(P, site):
-    r = e1_events(P, site.fn)
+    ok, why = _discharge_by_guard(P, site, 1)
+    if not ok and site.kind != "panic":
+        # the guard may stand in a helper the function calls (a count checked by a method of the operation, a budget charged by a
+        # function of its own): look again with the local helpers that have no loops read into the function
+        ok2, why2 = _discharge_by_guard(P, site, 3)
+        if ok2:
+            return True, why2 + " (helpers read in)"
+    return ok, why
+
+
+def _discharge_by_guard(P, site, depth):
+    r = e1_events(P, site.fn, depth=depth)
     if r["error"] or r["capped"]:
         return False, "analysis of %s incomplete (%s)" % (site.fn, r["error"] or "path cap / unsupported construct")
     if site.kind == "panic":
